@@ -124,6 +124,8 @@ def gen_pack(rng, world, flavour=None, allow_iterative=True):
         r = rng.random()
         if r < 0.45:
             u = dict(u, mask=_mask(rng, 0.15), lazy=lazy(), two_way=rng.random() < 0.7, reversible=rng.random() < 0.75)
+            if u["t"] != "TrackLetter":
+                u["empty_first"] = rng.random() < 0.3
             if u["t"] == "TrackLetter":
                 track_used = True
             if u["t"] != "TrackLetter" and rng.random() < 0.3:
@@ -187,6 +189,14 @@ def gen_pack(rng, world, flavour=None, allow_iterative=True):
         # no atom verification at all: only a generous fiat verification; atoms (and most other classes)
         # can then only be enumerated through reverse rules
         ver = [{"t": "FiatVerified", "salt": rng.randrange(1000), "pct": rng.choice([40, 55, 70]), "ignore_parent": False}]
+        if tracked and rng.random() < 0.6:
+            # ... and an atom that comes last and carries no statistics: when every longer prefix is empty the
+            # expansion is an equivalence whose non-empty child is not the first one and has its own parameter map
+            for grp in expansion:
+                for st in grp:
+                    if st["t"] == "Expand":
+                        st["drop"] = True
+                        st["atom_last"] = True
     symmetries = []
     if rng.random() < 0.2:
         n = len(world["alphabet"])
